@@ -9,7 +9,7 @@ import DnsModel.Synth
 namespace Dns
 
 inductive CAction
-  | name | rrType | rrClass | ttl | setTtl (n : Nat) | ip | setIp (b : Bytes)
+  | name | rrType | rrClass | ttl | setTtl (n : Nat) | ip (cap : Nat) | setIp (b : Bytes)
   | setRawName (n : Bytes) | setName (txt : Bytes) (zone : Option Bytes) | delete | delete2 | nothing
 
 def retErr (e : Option Err) : String :=
@@ -27,8 +27,10 @@ def cAct (pp : PP) (c : Cursor) : CAction → Option (PP × Cursor × String)
   | .rrClass => match c.rrClass pp.packet with | .ok v => some (pp, c, s!"class={v}") | _ => none
   | .ttl => match c.rrTtl pp.packet with | .ok v => some (pp, c, s!"ttl={v}") | _ => none
   | .setTtl n => match setRrTtl pp c n with | .ok pp' => some (pp', c, "ok") | _ => none
-  | .ip => match c.rrIp pp.packet with
-      | .ok b => some (pp, c, s!"ip={toHex b}/{b.length}")
+  | .ip cap => match c.rrIp pp.packet with
+      -- `cap` is the capacity the caller announces: the wrapper asserts it suffices, copies exactly the address and
+      -- writes the address length back
+      | .ok b => if b.length ≤ cap then some (pp, c, s!"ip={toHex b}/{b.length}") else none
       | _ => none
   | .setIp b => match c.rrIp pp.packet with
       | .ok _ =>
